@@ -320,7 +320,9 @@ def _judge_project(c):
         import os
 
         m2 = black.Mode(line_length=c["ll"])
-        b2 = "from inline_snapshot import snapshot\n\n\ndef test_x():\n    assert list(range(%d)) == snapshot([0])\n    assert 'a' == snapshot()\n" % c["n"]
+        # (one list is created - formatted as a whole, so its layout depends on the line length - one is extended in place)
+        b2 = ("from inline_snapshot import snapshot\n\n\ndef test_x():\n    assert list(range(%d)) == snapshot([0])\n    assert 'a' == snapshot()\n\n\n"
+              "def test_y():\n    assert list(range(%d)) == snapshot()\n" % (c["n"], c["n"] - 4))
         clean2 = black.format_str(b2, mode=m2)
         root = plugin.mk_project({})
         repo = os.path.join(root, "repo")
